@@ -143,6 +143,12 @@ func (p *provCtx) valueProv(v ssa.Value, depth int, seen map[ssa.Value]bool) pro
 		if isSrc(x.Common()) {
 			return provPersist
 		}
+		// an overlay read hands out the overlay's own object whatever the key was computed from
+		if nm := callName(x.Common()); nm == "Get" || nm == "GetFinality" {
+			if rn := recvNamed(x.Common()); rn != nil && (isLedgerType(rn) || isLedgerType(types.NewPointer(rn))) {
+				return provZero
+			}
+		}
 		// result depends on receiver/arguments
 		for _, a := range x.Common().Args {
 			if p.valueProv(a, depth+1, seen) == provPersist {
@@ -204,6 +210,25 @@ func (p *provCtx) valueProv(v ssa.Value, depth int, seen map[ssa.Value]bool) pro
 					for _, ref := range *a.Referrers() {
 						if st, ok := ref.(*ssa.Store); ok && st.Addr == a && p.valueProv(st.Val, depth+1, seen) == provPersist {
 							return provPersist
+						}
+						// the variable is captured by a function literal that assigns it
+						// (a list filled by a ledger-iteration callback)
+						if mc, ok := ref.(*ssa.MakeClosure); ok {
+							cf, _ := mc.Fn.(*ssa.Function)
+							for i, bnd := range mc.Bindings {
+								if bnd != ssa.Value(a) || cf == nil || i >= len(cf.FreeVars) {
+									continue
+								}
+								fv := cf.FreeVars[i]
+								if fv.Referrers() == nil {
+									continue
+								}
+								for _, r2 := range *fv.Referrers() {
+									if st, isSt := r2.(*ssa.Store); isSt && st.Addr == ssa.Value(fv) && p.valueProv(st.Val, depth+1, seen) == provPersist {
+										return provPersist
+									}
+								}
+							}
 						}
 					}
 				}
@@ -445,9 +470,118 @@ func checkC07(w *World, r *Report) {
 		r.Undecided("R-3", "write-back", "write-back analysis produced no obligation")
 	}
 	startupLag(w, r, "R-1")
+	r4(w, r, fns)
 	r.Floor("R-3", 8, "write-back sites")
+	r.Floor("R-4", 1, "item fields whose nil-ness block execution tests")
 	r.Floor("R-1", 12, "controller fields written during block execution")
 	r.Floor("R-2", 8, "persist/load pairs and codecs")
+}
+
+// r4: nil-ness that block execution tests must survive the round trip through the
+// store. The long-running node keeps item objects in the overlay cache; a
+// restarted node decodes them afresh. For every field of a ledger item whose
+// nil-ness a consensus function tests (`x.F == nil`), the item's decoder must
+// hand the wire field on as it is (an absent field decodes to nil, as a field
+// never set is nil in memory) — not a copy, which is empty but not nil.
+func r4(w *World, r *Report, fns []*ssa.Function) {
+	type fld struct {
+		owner *types.Named
+		name  string
+		site  string
+	}
+	tested := map[string]fld{}
+	for _, fn := range fns {
+		for _, b := range fn.Blocks {
+			for _, in := range b.Instrs {
+				bo, ok := in.(*ssa.BinOp)
+				if !ok || (bo.Op != token.EQL && bo.Op != token.NEQ) {
+					continue
+				}
+				for _, pr := range [][2]ssa.Value{{bo.X, bo.Y}, {bo.Y, bo.X}} {
+					c, isC := pr[1].(*ssa.Const)
+					if !isC || !c.IsNil() {
+						continue
+					}
+					ld, isLd := stripConv(pr[0]).(*ssa.UnOp)
+					if !isLd || ld.Op != token.MUL {
+						continue
+					}
+					fa, isFA := ld.X.(*ssa.FieldAddr)
+					if !isFA {
+						continue
+					}
+					n, f := fieldOf(fa.X.Type(), fa.Field)
+					if n == nil || f == nil || n.Obj().Pkg() == nil || !w.InModulePkg(n.Obj().Pkg().Path()) {
+						continue
+					}
+					if _, isSlice := f.Type().Underlying().(*types.Slice); !isSlice {
+						continue
+					}
+					// a ledger item: it has a Decode method
+					if dm := methodOfNamed(w, n, "Decode"); dm == nil || dm.Blocks == nil {
+						continue
+					}
+					k := n.Obj().Name() + "." + f.Name()
+					if _, seen := tested[k]; !seen {
+						tested[k] = fld{n, f.Name(), site(w, in)}
+					}
+				}
+			}
+		}
+	}
+	var keys []string
+	for k := range tested {
+		keys = append(keys, k)
+	}
+	sort.Strings(keys)
+	if os.Getenv("RIGOCHECK_DEBUG") == "r4" {
+		fmt.Fprintln(os.Stderr, "R4", len(fns), keys)
+	}
+	for _, k := range keys {
+		t := tested[k]
+		dm := methodOfNamed(w, t.owner, "Decode")
+		bad := ""
+		n := 0
+		for _, g := range w.withModuleCallees(dm, 2) {
+			for _, fs := range w.fieldStores(g) {
+				if fs.Owner == nil || fs.Owner.Obj() != t.owner.Obj() || fs.Field.Name() != t.name {
+					continue
+				}
+				n++
+				// the wire field handed on as it is: a load of a field of the decoded message
+				ld, isLd := stripConv(fs.Val).(*ssa.UnOp)
+				okv := false
+				if isLd && ld.Op == token.MUL {
+					if wfa, isFA := ld.X.(*ssa.FieldAddr); isFA {
+						if wn, _ := fieldOf(wfa.X.Type(), wfa.Field); wn != nil && wn.Obj() != t.owner.Obj() {
+							okv = true
+						}
+					}
+				}
+				if !okv {
+					bad = "the decoder stores " + w.Canon(fs.Val) + " (" + site(w, fs.In) + ")"
+				}
+			}
+		}
+		key := k + ":decode-preserves-nil"
+		switch {
+		case bad != "":
+			r.Violate("R-4", key, "block execution tests this field against nil ("+t.site+") but the decoder does not hand the wire field on as it is: "+bad+"; an item decoded after a restart then differs in nil-ness from the object a running node keeps in its cache", nil, fnSite(w, dm))
+		case n == 0:
+			r.OK("R-4", key, "the item is decoded in place by its codec library (no store of its own to the field)", fnSite(w, dm))
+		default:
+			r.OK("R-4", key, "the decoder hands the wire field on as it is: absent on the wire is nil in memory, as for an object that never set the field", fnSite(w, dm))
+		}
+	}
+}
+
+func methodOfNamed(w *World, n *types.Named, name string) *ssa.Function {
+	for i := 0; i < n.NumMethods(); i++ {
+		if m := n.Method(i); m.Name() == name {
+			return w.Prog.FuncValue(m)
+		}
+	}
+	return nil
 }
 
 func r1(w *World, r *Report, x *ExecCtx) {
@@ -1296,6 +1430,27 @@ func checkC08(w *World, r *Report) {
 	if r.importRules(w, func(t *Report) { r1(w, t, x); r2(w, t); startupLag(w, t, "R-1") }, "K-5", "R-1", "R-2") < 20 {
 		r.Undecided("K-5", "restart", "the restart rules (C07 R-1, R-2) matched fewer than 20 constructs")
 	}
+	// … and what only the overlay cache holds is lost by the crash: an item changed in
+	// place must have been marked (C07 R-3 = C01 D-6), and nil-ness that execution
+	// tests must survive the store (C07 R-4)
+	fns := consFuncs(x)
+	if r.importRules(w, func(t *Report) {
+		t2 := NewReport(t.Prop, t.Tier)
+		d6(w, t2, x, fns)
+		d6b(w, t2)
+		d6c(w, t2, x, fns)
+		d6d(w, t2, fns)
+		for _, o := range t2.Obs {
+			if o.Rule == "D-6" {
+				o.Rule = "R-3"
+				o.Key = "R-3:" + strings.TrimPrefix(o.Key, "D-6:")
+				t.Obs = append(t.Obs, o)
+			}
+		}
+		r4(w, t, fns)
+	}, "K-5", "R-3", "R-4") < 8 {
+		r.Undecided("K-5", "write-back", "the write-back rules (C07 R-3, R-4) matched fewer than 8 constructs")
+	}
 }
 
 // startupLag: after block N consensus holds the selection made from the state
@@ -1353,6 +1508,27 @@ func checkC10(w *World, r *Report) {
 	// U-5: a validator that was removed (all stake moved out, record deleted) is gone from
 	// the candidates of the following blocks: its record is not written back after the deletion
 	importNoResurrect(w, r, "U-5")
+	// U-6: the candidates of a block are the records the previous block committed
+	// (that is the one-block lag): an object of that list must not become the
+	// overlay's working object, or transactions of the block change what EndBlock
+	// selects from (C01 D-6 stale-copy: a copy decoded from the committed tree is not
+	// written into the overlay)
+	{
+		tmp := NewReport(r.Prop, r.Tier)
+		d6c(w, tmp, x, consFuncs(x))
+		n := 0
+		for _, o := range tmp.Obs {
+			if strings.HasPrefix(o.Key, "D-6:stale-copy:") && strings.Contains(o.Key, "delegateeLedger") {
+				o.Rule = "U-6"
+				o.Key = "U-6:" + strings.TrimPrefix(o.Key, "D-6:")
+				r.Obs = append(r.Obs, o)
+				n++
+			}
+		}
+		if n < 2 {
+			r.Undecided("U-6", "overlay-writes", "fewer than 2 writes to the delegatee ledger's overlay found in consensus context")
+		}
+	}
 	r.Floor("U-1", 5, "selection")
 	r.Floor("U-2", 9, "merge-diff decision table")
 	r.Floor("U-3", 3, "hand-over to consensus")
